@@ -1,6 +1,8 @@
 \* C20 propagation over the real stacks (net/http, gRPC over bufconn): ids "" (0), two plain ids (1, 2),
 \* an id with NUL/CR/LF (3: refused by both transports), an id with a high byte (4: refused by gRPC
-\* only), id 1 with a blank appended (5: HTTP delivers it trimmed, i.e. as id 1).
+\* only), id 1 with a blank appended (5). This is the PROPERTY: HTTPTrim = NoTrim, every id is delivered unchanged or the
+\* hop fails (strict Unchanged). The real net/http stack trims id 5 (open finding F11, sig wire:http-ows-trim);
+\* MC_prop_wire_strict.cfg / MC_prop_wire_asis.cfg are the as-is model (OWSTrim).
 CONSTANTS
   Ids = {0, 1, 2, 3, 4, 5}
   Channels = {"org"}
@@ -9,11 +11,11 @@ CONSTANTS
   WireHops = TRUE
   HTTPRefused = {3}
   GRPCRefused = {3, 4}
-  HTTPTrim <- OWSTrim
+  HTTPTrim <- NoTrim
 INIT Init
 NEXT Next
 VIEW view
-INVARIANTS TypeOK UnchangedUpToOWS NeverDefaulted RefusalHasReason
+INVARIANTS TypeOK Unchanged UnchangedUpToOWS NeverDefaulted SingleValueWritten RefusalHasReason
 PROPERTIES AlteredOnlyByHTTPTrim TransportRefusalIsNotDelivery RefusalIsFinal
 ACTION_CONSTRAINT EmitStep
 CHECK_DEADLOCK FALSE
